@@ -15,6 +15,7 @@ import (
 	"github.com/marekgalovic/anndb/storage"
 	"github.com/marekgalovic/anndb/storage/raft"
 	"pgregory.net/rapid"
+	"verifharness/catalog"
 	"verifharness/gen"
 	"verifharness/hutil"
 	"verifharness/pbt"
@@ -29,6 +30,26 @@ type Case struct {
 	Seed int64 `json:"seed"`          // math/rand seed of the shuffle
 	Via  int   `json:"via"`           // 0 allocator hook, 1 DatasetManager.Create proposal
 	Pre  int   `json:"pre,omitempty"` // via 1: the request already carries this many partitions (non-member / duplicate nodes), e.g. a descriptor from Get re-submitted
+	// Hist: membership changes applied to the address book after the N initial members, as the zero group's conf changes
+	// arrive (also twice, also for ids that are not listed): +k = member k-1 is added, -k = member k-1 is removed (never member 0,
+	// the node itself); the members of the cluster are what set semantics leave
+	Hist []int `json:"hist,omitempty"`
+}
+
+// membersOf is the member set after the case's membership history.
+func membersOf(c Case) map[uint64]bool {
+	m := map[uint64]bool{}
+	for i := 0; i < c.N; i++ {
+		m[memberID(i)] = true
+	}
+	for _, h := range c.Hist {
+		if h > 0 {
+			m[memberID(h-1)] = true
+		} else if h < -1 {
+			delete(m, memberID(-h-1))
+		}
+	}
+	return m
 }
 
 // captureGroup is a scripted raft.Group: it records the proposal and refuses it,
@@ -56,6 +77,13 @@ func placement(c Case) ([][]uint64, *pbt.Failure) {
 	}
 	for i := 0; i < c.N; i++ {
 		conn.AddNode(memberID(i), fmt.Sprintf("127.0.0.1:%d", 2000+i))
+	}
+	for _, h := range c.Hist {
+		if h > 0 {
+			conn.AddNode(memberID(h-1), fmt.Sprintf("127.0.0.1:%d", 2000+h-1))
+		} else if h < -1 {
+			conn.RemoveNode(memberID(-h - 1))
+		}
 	}
 	alloc := storage.NewAllocator(conn)
 	defer alloc.Stop()
@@ -102,20 +130,21 @@ func check(c Case, o *pbt.Obs) *pbt.Failure {
 	if f != nil {
 		return f
 	}
+	members := membersOf(c)
+	c.N = len(members)
 	want := c.R
 	if c.N < want {
 		want = c.N
 	}
-	members := map[uint64]bool{}
-	for i := 0; i < c.N; i++ {
-		members[memberID(i)] = true
+	if len(c.Hist) > 0 {
+		o.Label("address-book-built-by-a-membership-history")
 	}
 	if len(pl) != c.P {
 		return pbt.Failf("C16:partition-count", "%d placements for %d partitions", len(pl), c.P)
 	}
 	for i, ids := range pl {
 		if len(ids) != want {
-			return pbt.Failf("C16:replica-count", "partition %d assigned %d nodes %v, expected min(R=%d,N=%d)=%d", i, len(ids), ids, c.R, c.N, want)
+			return pbt.Failf("C16:replica-count", "partition %d assigned %d nodes %v, expected min(R=%d,N=%d)=%d (membership history %v)", i, len(ids), ids, c.R, c.N, want, c.Hist)
 		}
 		seen := map[uint64]bool{}
 		for _, id := range ids {
@@ -158,10 +187,17 @@ func check(c Case, o *pbt.Obs) *pbt.Failure {
 func TestPlacement(t *testing.T) {
 	pbt.Run(t, pbt.Prop[Case]{
 		ID: "C16", Name: "TestPlacement",
-		Rule: "rapid-generated (N in 1..16 members on a real cluster.Conn, R in 1..8, P in 1..64, shuffle seed), placement observed through the allocator hook and as embedded in the proposal of a real DatasetManager.Create over a scripted raft.Group (the request optionally carrying 1, 2 or 70 partitions of its own, as a re-submitted descriptor would); oracle: each partition has exactly min(R,N) pairwise distinct member ids; where the number of ordered placements A satisfies A^(P-1)>=1e12 not all partitions are identical; non-trivial = N>R and P>=2; distinct = distinct case JSON",
+		Rule: "rapid-generated (N in 1..16 members on a real cluster.Conn, in half of the cases followed by 1-12 further membership changes - members 1..8 added and removed, also twice and also when not listed - the members being what set semantics leave; R in 1..8, P in 1..64, shuffle seed), placement observed through the allocator hook and as embedded in the proposal of a real DatasetManager.Create over a scripted raft.Group (the request optionally carrying 1, 2 or 70 partitions of its own, as a re-submitted descriptor would); oracle: each partition has exactly min(R,N) pairwise distinct member ids; where the number of ordered placements A satisfies A^(P-1)>=1e12 not all partitions are identical; non-trivial = N>R and P>=2; distinct = distinct case JSON",
 		Gen: func(t *rapid.T) Case {
 			return Case{N: rapid.IntRange(1, 16).Draw(t, "n"), R: rapid.IntRange(1, 8).Draw(t, "r"), P: rapid.IntRange(1, 64).Draw(t, "p"),
-				Seed: rapid.Int64().Draw(t, "seed"), Via: rapid.IntRange(0, 1).Draw(t, "via"), Pre: rapid.SampledFrom([]int{0, 0, 0, 1, 2, 70}).Draw(t, "pre")}
+				Seed: rapid.Int64().Draw(t, "seed"), Via: rapid.IntRange(0, 1).Draw(t, "via"), Pre: rapid.SampledFrom([]int{0, 0, 0, 1, 2, 70}).Draw(t, "pre"),
+				Hist: rapid.OneOf(rapid.Just([]int(nil)), rapid.SliceOfN(rapid.Custom(func(t *rapid.T) int {
+					k := rapid.IntRange(1, 8).Draw(t, "member") + 1 // members 1..8, never the node itself
+					if rapid.Bool().Draw(t, "remove") {
+						return -k
+					}
+					return k
+				}), 1, 12)).Draw(t, "hist")}
 		},
 		Check: check,
 	})
@@ -198,6 +234,64 @@ func TestPlacementFrequency(t *testing.T) {
 			fr := float64(same) / draws
 			if fr < 0.10 || fr > 0.45 {
 				return pbt.Failf("C16:not-independent", "two partitions landed on the same single node in %.3f of %d placements (expected about 0.25)", fr, draws)
+			}
+			return nil
+		},
+	})
+}
+
+// The same frequencies when the catalogue already holds datasets: earlier placements are no input of a new one.
+type FreqCatCase struct {
+	Seed int64 `json:"seed"`
+	// Existing: datasets in the catalogue before the placements are drawn; per dataset, per partition, the member indexes (1..3)
+	// hosting it (this node, member 0, hosts nothing: no raft groups are loaded)
+	Existing [][][]int `json:"existing"`
+}
+
+func TestPlacementFrequencyWithCatalogue(t *testing.T) {
+	pbt.Run(t, pbt.Prop[FreqCatCase]{
+		ID: "C16", Name: "TestPlacementFrequencyWithCatalogue",
+		Rule: "a real DatasetManager + allocator on member 0 of 4 (scripted zero group) whose catalogue already holds 1-3 generated datasets of 1-4 partitions placed on generated subsets of the other three members (so some members host nothing, some host everything); then 2000 placements of (R=1,P=2) from one generated shuffle seed; the fraction with both partitions on the same node must lie in [0.10,0.45] (15 sigma around 1/4); every case is non-trivial; distinct = distinct case JSON",
+		Gen: func(t *rapid.T) FreqCatCase {
+			part := rapid.SliceOfNDistinct(rapid.IntRange(1, 3), 1, 3, rapid.ID[int])
+			return FreqCatCase{Seed: rapid.Int64().Draw(t, "seed"), Existing: rapid.SliceOfN(rapid.SliceOfN(part, 1, 4), 1, 3).Draw(t, "existing")}
+		},
+		Check: func(c FreqCatCase, o *pbt.Obs) *pbt.Failure {
+			members := []uint64{memberID(0), memberID(1), memberID(2), memberID(3)}
+			r := catalog.NewReplica("freq", memberID(0), members)
+			defer r.Close()
+			m := catalog.Model{}
+			hosting := map[uint64]bool{}
+			for slot, ds := range c.Existing {
+				op := catalog.Op{K: catalog.OpCreate, Slot: slot, Dim: 2}
+				for _, p := range ds {
+					var ids []uint64
+					for _, i := range p {
+						ids = append(ids, memberID(i))
+						hosting[memberID(i)] = true
+					}
+					op.Nodes = append(op.Nodes, ids)
+				}
+				_ = r.G.Process(catalog.Marshal(op, slot, m))
+				catalog.ApplyModel(m, op)
+			}
+			r.Flush()
+			o.Labelf("members-hosting-nothing=%d", 4-len(hosting))
+			rand.Seed(c.Seed)
+			same := 0
+			const draws = 2000
+			for i := 0; i < draws; i++ {
+				pl := r.Alloc.VerifPlacement(2, 1)
+				if len(pl) != 2 || len(pl[0]) != 1 || len(pl[1]) != 1 {
+					return pbt.Failf("C16:replica-count", "placement %v for P=2 R=1 on 4 members", pl)
+				}
+				if pl[0][0] == pl[1][0] {
+					same++
+				}
+			}
+			o.NonTrivial()
+			if fr := float64(same) / draws; fr < 0.10 || fr > 0.45 {
+				return pbt.Failf("C16:not-independent", "with datasets %v in the catalogue two partitions landed on the same single node in %.3f of %d placements (expected about 0.25)", c.Existing, fr, draws)
 			}
 			return nil
 		},
